@@ -432,3 +432,19 @@ PROPS["C28"] = {
     "level_note": "Trusted: rustc MIR dump, E2 translator and byte-image models, z3.",
     "design_ref": "DESIGN.md section 3, C28 and section 7",
 }
+
+PROPS["C01"]["e2"] = ["c17", "c01", "replay"]
+PROPS["C01"]["functions_encoded"] += ["engine::replay_graph_transactions"]
+PROPS["C01"]["bounds"]["replay"] = ("committed lists of 1 transaction x <= 2 records and 2 transactions x <= 1 record (quick), 2 x 2 (thorough); every "
+                                   "WalRecord kind is an alternative for every record; all field values and the checkpoint txid symbolic")
+PROPS["C01"]["stubs"] += ["replay: every IdMap::apply_* / MemTable::* method is a recorder; IdMap::lookup -> None | Some; L0Run::is_empty -> both"]
+PROPS["C01"]["level_text"] = PROPS["C01"]["level_text"].replace(
+    "plus Kani/CBMC round trips",
+    "and of engine::replay_graph_transactions (every record of every committed, not-checkpointed transaction is applied through the matching "
+    "call with its own arguments, in log order; checkpointed transactions are skipped entirely; one run per applied transaction), plus Kani/CBMC round trips")
+PROPS["C02"]["e2"] = ["c02", "replay"]
+PROPS["C02"]["functions_encoded"] += ["engine::replay_graph_transactions"]
+PROPS["C02"]["level_text"] = PROPS["C02"]["level_text"].replace(
+    "well-bracketed logs never fail.",
+    "well-bracketed logs never fail; replay of the committed list applies whole transactions only (a transaction is skipped entirely iff it is "
+    "checkpointed, otherwise all its records are applied in order).")
